@@ -1238,13 +1238,26 @@ impl<'a> Exchange<'a> {
         // counter value replayed. Writes happen once per
         // `GROUP_DATA_CTR_EPOCH` messages, not per message.
         if let Some(boundary) = boundary {
-            kv.access(|store, buf| {
+            let stored = kv.access(|store, buf| {
                 store.store(
                     crate::persist::GROUP_DATA_COUNTER_KEY,
                     &boundary.to_le_bytes(),
                     buf,
                 )
-            })?;
+            });
+
+            if let Err(e) = stored {
+                // The boundary did not become durable: undo the reservation, or the
+                // following group messages would use values nothing durable covers
+                // and a restart would hand them out again.
+                matter.with_state(|state| {
+                    state
+                        .sessions
+                        .unreserve_global_group_data_ctr(group_data_ctr)
+                });
+
+                return Err(e);
+            }
 
             debug!(
                 "Group data message counter boundary persisted: {}",
